@@ -72,7 +72,7 @@ def run(ctx):
     jobs = []
     for sc in scs:
         for drv in ("parfile", "parblock"):
-            for w in ((1, 2, 4, 16, 64) if quick else (1, 2, 3, 4, 8, 16, 32, 64)):
+            for w in ((0, 1, 2, 4, 16, 64) if quick else (0, 1, 2, 3, 4, 8, 16, 32, 64)):      # 0 = one worker per logical CPU
                 for rep in range(3 if quick else 7):
                     plan = None if rep != 1 else ["delay=%d:%d" % (rnd.randint(1, 10 ** 6), rnd.choice([100, 800, 3000]))]
                     # schedule perturbation from outside: strace holds threads at the exit/entry of chosen system calls
